@@ -846,8 +846,9 @@ where
         match inp.memos.entry(key) {
             hashbrown::hash_map::Entry::Occupied(o) => {
                 if let Some(err) = o.get() {
+                    // Replay the remembered failure where it happened, as re-running the parser would
                     let err = err.clone();
-                    inp.add_alt_err(&before.inner /*&err.pos*/, err.err);
+                    inp.add_alt_err(&err.pos, err.err);
                 } else {
                     let err_span = inp.span_since(&before);
                     // TODO: Is this an appropriate way to handle infinite recursion?
@@ -863,8 +864,11 @@ where
         let res = self.parser.go::<M>(inp);
 
         if res.is_err() {
+            // Remember the error, but leave it pending as well: like any failed parser, this one must leave its error
+            // behind for the enclosing combinators (`or`, `map_err`, `recover_with`, ...)
             let alt = inp.take_alt();
-            inp.memos.insert(key, alt);
+            inp.memos.insert(key, alt.clone());
+            inp.errors.alt = alt;
         } else {
             inp.memos.remove(&key);
         }
